@@ -18,7 +18,7 @@ from vt.mon import c27_child as K
 
 PID = "C27"
 LEVEL = "fault_enumeration"
-TECHNIQUE = "crash-point / truncation-offset / fault-script enumeration with a recompile oracle"
+TECHNIQUE = "crash-point / truncation-offset / fault-script / two-writer-schedule enumeration with a recompile oracle"
 RULE = ("(a) crash points: one template load through FileSystemBytecodeCache is instrumented (audit "
         "events open/tempfile.mkstemp/os.rename/os.remove in the cache dir + before/torn/after each "
         "write that Bucket.write_bytecode makes + entering/leaving it); at EVERY event k of that load "
@@ -52,8 +52,8 @@ RULE = ("(a) crash points: one template load through FileSystemBytecodeCache is 
         "character; thorough: all four). Oracle everywhere: result == load+render of the "
         "CURRENT source compiled without any cache in the LOADING environment; no exception (except "
         "the client's own one when ignore_memcache_errors is off). distinct = distinct (part, "
-        "template, loader, fault position/kind) cases")
-LEVEL_TEXT = ("held on every enumerated crash point / offset / history / fault script; crash atomicity is "
+        "template, loader, fault position/kind or schedule) cases")
+LEVEL_TEXT = ("held on every enumerated crash point / offset / history / fault script / two-writer schedule; crash atomicity is "
               "claimed at the granularity of Python-level write calls and audit events (plus one torn "
               "write per call), not for arbitrary kernel-level partial writes")
 ASSUMPTIONS = [
@@ -63,6 +63,10 @@ ASSUMPTIONS = [
     "their marshal payload is this interpreter's or garbage",
     "only header bytes are corrupted; arbitrary corruption of the marshal payload is outside the statement",
     "one compile-relevant option differs per environment pair",
+    "two writers: interleaving is at the granularity of the same Python-level I/O events (audit events, "
+    "write calls incl. one torn write per call); each writer is stopped at most once; two writers and "
+    "one key; the writers are threads of one process that never run at the same time (a deterministic "
+    "schedule), which is what two processes interleaved by the OS look like to the file system",
     "near-identical sources are one edit apart and at most 45 characters long; the edit alphabet is "
     "the 25 characters listed in RULE (no lone surrogates, no NUL)",
 ]
@@ -81,7 +85,13 @@ FLOORS = {
                            "edit_class_sub:unicode-line-boundary": 200,
                            "edit_class_ins:unicode-line-boundary": 200,
                            "edit_class_sub:newline": 75, "edit_class_ins:newline": 75,
-                           "edit_class_del:newline": 3, "edit_at-end": 100}},
+                           "edit_class_del:newline": 3, "edit_at-end": 100,
+                           "duel_cases": 88, "duel_loads": 300, "duel_first_writer_interrupted": 88,
+                           "duel_both_writers_interrupted": 32,
+                           "duel_second_writer_complete_in_between": 48,
+                           "duel_clear_in_between": 8, "duel_writers_hold_different_sources": 64,
+                           "duel_interrupted_at_write-event": 55,
+                           "duel_interrupted_at_audit-event": 22}},
     "thorough": {"evaluations": 27000, "distinct": 12000,
                  "counters": {"crash_cases": 70, "real_deaths": 70, "crash_write_events": 47,
                               "crash_audit_events": 25, "reader_loads": 290, "trunc_offsets": 3800,
@@ -94,7 +104,15 @@ FLOORS = {
                               "edit_class_sub:unicode-line-boundary": 800,
                               "edit_class_ins:unicode-line-boundary": 800,
                               "edit_class_sub:newline": 300, "edit_class_ins:newline": 300,
-                              "edit_class_del:newline": 8, "edit_at-end": 130}},
+                              "edit_class_del:newline": 8, "edit_at-end": 130,
+                              "duel_cases": 1800, "duel_loads": 6000,
+                              "duel_first_writer_interrupted": 1800,
+                              "duel_both_writers_interrupted": 1600,
+                              "duel_second_writer_complete_in_between": 140,
+                              "duel_clear_in_between": 24,
+                              "duel_writers_hold_different_sources": 1600,
+                              "duel_interrupted_at_write-event": 1100,
+                              "duel_interrupted_at_audit-event": 450}},
 }
 
 NAME = "t.html"
@@ -889,6 +907,181 @@ def part_memcached(ctx, quick):
                 mem_script(ctx, {"part": "mem", "tname": tname, "ignore": ignore, "script": script})
 
 
+# ------------------------------------------- (f) two writers at the same time
+DUEL_RELATIONS = {"other-source": (1, 0), "other-source-reversed": (0, 1), "same-source": (1, 1)}
+
+
+def event_names(events):
+    """Event k -> 'write.pre#2' (occurrence number within the load)."""
+    seen = {}
+    out = []
+    for ev in events:
+        seen[ev] = seen.get(ev, 0) + 1
+        out.append(f"{ev}#{seen[ev]}")
+    return out
+
+
+def phase_of(names, k):
+    """Where in its load a writer was stopped: before it began to write the
+    entry, while writing it, or after the last write (before / at the rename)."""
+    if "write_bytecode.enter#1" not in names[:k]:
+        return "before-writing"
+    if "write_bytecode.exit#1" in names[:k]:
+        return "after-writing"
+    return "while-writing"
+
+
+def duel_case(ctx, store, case):
+    """Writer A stops at its event pause_a, the second actor (writer B for the
+    same key, or clear()) runs to its event pause_b / to completion, A
+    finishes, B finishes.  Afterwards every source either writer held is
+    loaded twice by fresh environments through a copy of the directory."""
+    tname, lk, rel = case["tname"], case["loader"], case["relation"]
+    va, vb = DUEL_RELATIONS[rel]
+    srcs = TEMPLATES[tname]
+    cache_dir, src_dir = store.fresh()
+    try:
+        if case["prior"]:
+            fs_load(cache_dir, mk_loader(lk, srcs[1 - va], src_dir))
+        res = K.duel({"cache_dir": cache_dir, "src_dir": src_dir, "loader": lk, "name": NAME,
+                      "source_a": srcs[va], "source_b": srcs[vb], "pause_a": case["pause_a"],
+                      "pause_b": case["pause_b"], "flush": case["flush"],
+                      "second": case["second"]})
+        if res["timed_out"]:
+            ctx.inconc(f"two-writer schedule did not finish: {case}")
+            return None
+        ctx.ev()
+        ctx.count("duel_cases")
+        na = event_names(res["events_a"])
+        nb = event_names(res["events_b"])
+        a_at = na[case["pause_a"] - 1] if res["a_paused_at"] else None
+        b_at = nb[case["pause_b"] - 1] if res["b_paused_at"] else None
+        if a_at is None:
+            ctx.count("duel_first_writer_not_interrupted")
+        else:
+            ctx.count("duel_first_writer_interrupted")
+            ctx.count("duel_interrupted_at_" + ("audit-event" if a_at.startswith("audit:")
+                                                else "write-event"))
+            if case["second"] == "clear":
+                ctx.count("duel_clear_in_between")
+            elif b_at is None:
+                ctx.count("duel_second_writer_complete_in_between")
+            else:
+                ctx.count("duel_both_writers_interrupted")
+            if va != vb and case["second"] == "writer":
+                ctx.count("duel_writers_hold_different_sources")
+        sched = (f"second={case['second']}:{rel}:first-stopped="
+                 f"{phase_of(na, case['pause_a']) if a_at else 'never'}:second-stopped="
+                 f"{phase_of(nb, case['pause_b']) if b_at else 'never'}:"
+                 f"{'flushed' if case['flush'] else 'unflushed'}")
+        for who, out, ver in (("first", res["a"], va), ("second", res["b"], vb)):
+            if who == "second" and case["second"] == "clear":
+                if out[0] != "ok":
+                    ctx.violation(f"two-writers:{sched}:clear-raises:{out[2]}",
+                                  f"clear() while a writer was stopped at {a_at}: {out}", case)
+                continue
+            if not same(out, expected(tname, ver)):
+                kind = f"writer-raises:{out[2]}" if out[0] == "exc" else "writer-wrong-output"
+                ctx.violation(f"two-writers:{sched}:{kind}",
+                              f"the {who} writer (source version {ver}) got {out}; compiling its "
+                              f"source gives {expected(tname, ver)}", case)
+                return res
+        # what is on disk now must serve every source correctly (or miss)
+        for ver in sorted({va, vb}):
+            copy = cache_dir + f".after{ver}"
+            shutil.copytree(cache_dir, copy)
+            try:
+                loader = mk_loader(lk, srcs[ver], src_dir)
+                exp = expected(tname, ver)
+                for i in (1, 2):
+                    r = fs_load(copy, loader)
+                    ctx.ev()
+                    ctx.count("duel_loads")
+                    if not same(r, exp):
+                        other = expected(tname, 1 - ver)
+                        kind = ("other-sources-code" if same(r, other) else
+                                f"reader-raises:{r[2]}" if r[0] == "exc" else "wrong-output")
+                        ctx.violation(
+                            f"two-writers:{sched}:{kind}",
+                            f"{tname}/{lk}: writer A (source v{va}) stopped at its event "
+                            f"#{case['pause_a']} ({a_at}), {case['second']} B (source v{vb}) "
+                            f"{'stopped at ' + b_at if b_at else 'ran to completion'}, then A "
+                            f"finished{', then B' if b_at else ''}; afterwards load #{i} of source "
+                            f"v{ver} by a fresh environment gave {r}, compiling it gives {exp}",
+                            case)
+                        return res
+            finally:
+                shutil.rmtree(copy, ignore_errors=True)
+        return res
+    finally:
+        store.drop(cache_dir)
+
+
+def duel_plan(quick):
+    """[(tname, loader, prior, relation, flush, second, full)]; full = every
+    stop point of the second writer as well (else it runs to completion)."""
+    plan = []
+    combos = [("small", "dict", False), ("big", "fs", True)] if quick else \
+        [("small", "dict", False), ("big", "fs", True), ("small", "fs", True), ("big", "dict", False),
+         ("medium", "dict", True), ("combined", "fs", False)]
+    for ci, (tname, lk, prior) in enumerate(combos):
+        for rel in DUEL_RELATIONS:
+            for flush in (True, False):
+                full = (rel != "same-source" or ci == 0) if not quick else \
+                    (rel == "other-source" and flush and ci == 0)
+                plan.append((tname, lk, prior, rel, flush, "writer", full))
+        plan.append((tname, lk, prior, "same-source", True, "clear", False))
+    return plan
+
+
+def duel_events(store, tname, lk, prior):
+    """Number of I/O events of one undisturbed load (probe: a first writer that
+    is never stopped, clear() as the second actor)."""
+    cache_dir, src_dir = store.fresh()
+    try:
+        if prior:
+            fs_load(cache_dir, mk_loader(lk, TEMPLATES[tname][0], src_dir))
+        res = K.duel({"cache_dir": cache_dir, "src_dir": src_dir, "loader": lk, "name": NAME,
+                      "source_a": TEMPLATES[tname][1], "source_b": None, "pause_a": -1,
+                      "pause_b": 0, "flush": False, "second": "clear"})
+        return len(res["events_a"])
+    finally:
+        store.drop(cache_dir)
+
+
+def part_duel(ctx, store, quick):
+    idx = 0
+    nevs = {}
+    for tname, lk, prior, rel, flush, second, full in duel_plan(quick):
+        base = {"part": "duel", "tname": tname, "loader": lk, "prior": prior, "relation": rel,
+                "flush": flush, "second": second}
+        if (tname, lk, prior) not in nevs:
+            nevs[tname, lk, prior] = duel_events(store, tname, lk, prior)
+            if ctx.shard == 0:
+                ctx.extra[f"duel_events_{tname}_{lk}_{int(prior)}"] = nevs[tname, lk, prior]
+        nev = nevs[tname, lk, prior]
+        if nev < 5:
+            ctx.inconc(f"a load through the file-system cache shows only {nev} I/O events")
+            continue
+        for k in range(1, nev + 1):
+            for j in ([0] + list(range(1, nev + 1)) if full else [0]):
+                if quick and j and (k + j + ctx.seed) % 2:
+                    continue        # quick: half of the (k, j) matrix, the other half with the next seed
+                idx += 1
+                if not ctx.mine(idx):
+                    continue
+                if ctx.out_of_time():
+                    ctx.inconc("time box hit inside the two-writer schedules")
+                    return
+                if duel_case(ctx, store, dict(base, pause_a=k, pause_b=j)) is None:
+                    return
+                ctx.dist(("duel", tname, lk, prior, rel, flush, second, k, j))
+    if ctx.shard == 0:
+        ctx.sample({"part": "duel", "tname": "small", "loader": "dict", "prior": False,
+                    "relation": "other-source", "flush": True, "second": "writer",
+                    "pause_a": 11, "pause_b": 0})
+
+
 # ----------------------------------- (e) near-identical sources (minimal edits)
 EDIT_BASES = {
     "data": "Hello {{ x }}\nnext line\n",
@@ -1065,6 +1258,7 @@ def run(ctx):
                          ("shared", lambda: part_shared(ctx, store, quick)),
                          ("memcached", lambda: part_memcached(ctx, quick)),
                          ("edits", lambda: part_edits(ctx, store, quick)),
+                         ("duel", lambda: part_duel(ctx, store, quick)),
                          ("real_deaths", lambda: part_crash(ctx, store, quick, real=True))):
             t0 = ctx.elapsed()
             fn()
@@ -1086,6 +1280,8 @@ def replay(ctx, case):
             mem_script(ctx, case)
         elif part == "edit":
             edit_case(ctx, store, case)
+        elif part == "duel":
+            duel_case(ctx, store, case)
         else:
             replay_damaged(ctx, store, case)
     finally:
